@@ -56,7 +56,7 @@ TRUSTED_ALLOW['page_w'] = {
 TRUSTED_ALLOW['page_r'] = TRUSTED_ALLOW['page_w'] | {'external_body:slice_eq4'}
 PROPS['C11'] = {
     'level': 'proof',
-    'verus': ['page_w', 'page_r'],
+    'verus': ['page_w', 'page_r', 'crc'],
     'claim': ('Representation invariants of PagedWriter (every device page sealed, bytes at/after the cursor untouched, page-granular '
               'zero-filled logical stream view) and PagedReader (cache clause) proved preserved by the real bodies of every public '
               'operation against the device model, with frame conditions over the whole stream view: write/write_all append exactly '
@@ -74,17 +74,20 @@ TRUSTED_ALLOW['rd_top'] = TRUSTED_ALLOW['page_r'] | {'external_body:shim_u64_fro
 _CRC_MATH = 'error-detection facts of the Castagnoli polynomial (HD>=4 up to 8192 bits, all bursts <= 32 bits) are mathematics about the polynomial, not about this code: assumed'
 PROPS['C07'] = {
     'level': 'proof',
-    'verus': ['page_r', 'rd_top'],
+    'verus': ['page_r', 'rd_top', 'crc'],
     'kani': ['crc_k'],
     'claim': ('Cache-coherence invariant of PagedReader proved on every exit of read_page (after a failure the cache is never stale); '
               'read / read_exact / extract_xml hand out only bytes of pages whose stored big-endian checksum matches crc32c of the payload '
               '(postcondition page_ok for every byte) and otherwise fail with the cursor unchanged; validate_crc Ok => every page sealed '
-              '(loop invariant over all pages, terminates); built-in CRC = CRC-32C: table = bitwise reflected division by 0x82F63B78 '
-              '(all 256 entries), one table step = 8 bitwise steps for all (u32,u8), init/final xor and check value.'),
+              '(loop invariant over all pages, terminates); built-in CRC = CRC-32C for inputs of EVERY length (unit crc, Verus, on the real bodies '
+              'of Crc32::new and Crc32::calculate): every one of the 256 table entries is eight steps of the reflected bitwise division by 0x82F63B78, '
+              'calculate(data) == !state(data) with state(empty) = all ones and state(s+b) = eight bit steps of state(s)^b (loop invariant over the '
+              'input; one table step = 8 bit steps for all (u32,u8) by bit-vector reasoning), and that definition takes "123456789" to 0xE3069283 '
+              '(by computation). The Kani unit crc_k re-checks table, step and short inputs on the compiled crate (bounded, counterexamples).'),
     'trusted': GLOBAL_TRUSTED + [_DEV, _CRC_OFF, _CRC_MATH],
     'assumptions': [_DEV, _CRC_OFF, _CRC_MATH,
                     'the optional crc32c crate (hardware path) is outside both verifiers; identical files/verdicts follow if it computes CRC-32C',
-                    'Crc32::calculate is modelled in the Verus units as the uninterpreted function crc32c(data); the Kani unit relates the real calculate to the bitwise CRC-32C definition (per-byte step for all states; whole inputs bounded to length <= 3)',
+                    'Crc32::calculate is seen by the page-layer units through its contract r == crc32c(data) only (crc32c uninterpreted there); unit crc proves that contract on the real body with crc32c := the bitwise CRC-32C definition, under the precondition that the table is the one Crc32::new builds (the field is private and written nowhere else); Iterator::fold over a slice is spelled out as the loop that defines it (rewrite logged in the evidence)',
                     'points/blobs read paths above the page layer inherit the guarantee through PagedReader::read/read_exact contracts (units rd, blob)'],
 }
 
@@ -275,7 +278,7 @@ PROPS['C02'] = {
               'length (whole pages), the physical XML offset (= phys(cursor), outside checksum bytes), the XML length and page size 1024, and flushes: device '
               'payload = logical stream, every page sealed (C11). DataPacketHeader::write and CompressedVectorSectionHeader::write emit the packet / section '
               'header layouts; Blob::write emits header ++ payload ++ padding with the section length of the format; physical_position never points into checksum '
-              'bytes; align pads with zeros to 4; every page sealed with the big-endian checksum (that the checksum is CRC-32C is discharged under C07, unit crc_k). Header::read / packet parsers (unit rd) accept exactly these layouts.'),
+              'bytes; align pads with zeros to 4; every page sealed with the big-endian checksum (that the checksum is CRC-32C is discharged under C07, unit crc). Header::read / packet parsers (unit rd) accept exactly these layouts.'),
     'trusted': GLOBAL_TRUSTED + [_DEV, _CRC_OFF],
     'assumptions': [_DEV, _CRC_OFF,
                     'XML well-formedness / namespace correctness and the offsets published INSIDE the XML text are outside (serialize_root is contract-only; String bytes uninterpreted) — C04 not applicable',
